@@ -51,6 +51,8 @@ pub(crate) fn append_seq_index_entry_best_effort(path: &Path, entry: &SeqSeekInd
     let Ok(file) = OpenOptions::new().create(true).append(true).open(path) else {
         return;
     };
+    #[cfg(rip_verif)]
+    rip_kernel::verif::point("seekidx.opened");
     let mut writer = BufWriter::new(file);
     let Ok(line) = serde_json::to_string(entry) else {
         return;
@@ -58,6 +60,8 @@ pub(crate) fn append_seq_index_entry_best_effort(path: &Path, entry: &SeqSeekInd
     let _ = writer.write_all(line.as_bytes());
     let _ = writer.write_all(b"\n");
     let _ = writer.flush();
+    #[cfg(rip_verif)]
+    rip_kernel::verif::point("seekidx.flushed");
 }
 
 /// Returns `Ok(None)` when the index file doesn't exist.
@@ -354,10 +358,16 @@ fn create_empty_msg_index(path: &Path, capacity: u64) -> io::Result<()> {
         fs::create_dir_all(parent)?;
     }
     let mut file = File::create(path)?;
+    #[cfg(rip_verif)]
+    rip_kernel::verif::point("msgidx.created");
     let header = MsgIndexHeader { capacity, len: 0 };
     write_msg_index_header(&mut file, header)?;
+    #[cfg(rip_verif)]
+    rip_kernel::verif::point("msgidx.header0");
     file.set_len(MSG_INDEX_HEADER_SIZE + capacity.saturating_mul(MSG_INDEX_SLOT_SIZE))?;
     file.flush()?;
+    #[cfg(rip_verif)]
+    rip_kernel::verif::point("msgidx.sized");
     Ok(())
 }
 
@@ -474,6 +484,8 @@ pub(crate) fn insert_message_best_effort_v1(
             if write_slot(&mut file, off, &key, seq, line_offset).is_err() {
                 return;
             }
+            #[cfg(rip_verif)]
+            rip_kernel::verif::point("msgidx.slot");
             let new_header = MsgIndexHeader {
                 capacity: header.capacity,
                 len: header.len.saturating_add(1),
